@@ -69,6 +69,10 @@ def copy (p : Param α) : Param α := p
 /-- `AutoParameter(const Parameter&)` -/
 def toAuto (p : Param α) : Param α := { p with auto := true }
 
+/-- `Parameter(const Parameter&)` applied to an auto-correcting object (slicing copy: `Parameter q(a)`,
+a by-value argument): a plain parameter with the same members -/
+def toPlain (p : Param α) : Param α := { p with auto := false }
+
 /-- `operator=`: all data members; the dynamic type of the target stays -/
 def assign (dst src : Param α) : Param α := { src with auto := dst.auto }
 
@@ -151,6 +155,7 @@ inductive POp (α : Type) where
   | construct (k : Nat) (auto : Bool) (v : α) (c : Option (Interval α)) (prec : α)
   | copy (src dst : Nat)
   | toAuto (src dst : Nat)
+  | toPlain (src dst : Nat)
   | assign (src dst : Nat)
   | setValue (k : Nat) (v : α)
   | setPrecision (k : Nat) (x : α)
@@ -190,6 +195,10 @@ def step (s : PStore α) : POp α → PStore α × POutcome
   | .toAuto src dst =>
     match s src with
     | some p => (s.set dst p.toAuto, .done)
+    | none => (s, .absent)
+  | .toPlain src dst =>
+    match s src with
+    | some p => (s.set dst p.toPlain, .done)
     | none => (s, .absent)
   | .assign src dst =>
     match s src, s dst with
